@@ -103,6 +103,8 @@ type vScriptEv struct {
 //  2 lagging: like mesh, but the last validator creates an event only every third round
 //  3 fork:    like mesh, and the last validator forks once: two events on the same self-parent, shown to different peers
 //  4 lcg:     pseudo-random parents from a fixed linear congruential sequence
+//  5 triple:  like mesh, and the last validator starts with THREE first events x, y, z; x is received first but never
+//             referenced, the others build on y and z (a fork whose lowest branch is not in any Atropos' ancestry)
 func vScript(kind, V, rounds int, seed uint32) []vScriptEv {
 	var s []vScriptEv
 	last := make([]int, V)     // latest event per validator (its own view: the branch it continues)
@@ -145,7 +147,7 @@ func vScript(kind, V, rounds int, seed uint32) []vScriptEv {
 						continue
 					}
 					p := prev[u]
-					if kind == 3 && shown[v][u] >= 0 {
+					if (kind == 3 || kind == 5) && shown[v][u] >= 0 {
 						p = shown[v][u]
 						shown[v][u] = -1
 					}
@@ -156,6 +158,13 @@ func vScript(kind, V, rounds int, seed uint32) []vScriptEv {
 			}
 			s = append(s, ev)
 			last[v] = len(s) - 1
+			if kind == 5 && v == V-1 && r == 0 && !forked {
+				s = append(s, vScriptEv{creator: v, self: -1}) // y
+				last[v] = len(s) - 1
+				s = append(s, vScriptEv{creator: v, self: -1}) // z
+				shown[1][v] = len(s) - 1
+				forked = true
+			}
 			if kind == 3 && v == V-1 && r == 1 && !forked {
 				// the fork: a second event on the same self-parent; validator 0 is shown the twin
 				twin := vScriptEv{creator: v, self: ev.self, others: append([]int{}, ev.others...)}
@@ -429,7 +438,7 @@ type vRun struct {
 
 func newVRun(kind, V, rounds int, seed uint32) *vRun {
 	cheater := -1
-	if kind == 3 {
+	if kind == 3 || kind == 5 {
 		cheater = V - 1
 	}
 	vals, ws := vFSWeights(V, cheater)
@@ -591,5 +600,7 @@ func VerifH_FS_laggingV3() { verifFS(2, 3, 7, 1) }
 func VerifH_FS_forkV4()    { verifFS(3, 4, 8, 1) }
 func VerifH_FS_forkV3()    { verifFS(3, 3, 8, 1) }
 func VerifH_FS_lcgV3()     { verifFS(4, 3, 7, 7) }
+func VerifH_FS_tripleV3()  { verifFS(5, 3, 8, 1) }
+func VerifH_FS_tripleV4()  { verifFS(5, 4, 7, 1) }
 func VerifH_FS_meshV4()    { verifFS(0, 4, 5, 1) }
 func VerifH_FS_lcgV4()     { verifFS(4, 4, 7, 3) }
